@@ -78,20 +78,42 @@ def _mpfr_eval(
     return mpfr_call(gmp_fn, gmp_args, prec=prec, n=n)
 
 
+_GUARD_BITS = 64
+"""extra digits for the inner part of a constant built from two operations"""
+
+
+def _composed(inner: Callable[[], gmp.mpfr], outer: Callable[[gmp.mpfr], gmp.mpfr]):
+    """
+    A constant `outer(inner())` for :func:`mpfr_call`, which needs the working-precision
+    truncation of the true value and a ternary value that says it is inexact.
+
+    Evaluating both steps at the working precision gives neither: the error of the
+    inner step moves the result off the truncation, and the ternary value reports
+    only the last step -- `const_pi() / 2` is an exact division of a truncated `pi`.
+    So the inner part is computed with guard digits, and only `outer` rounds to
+    the working precision.
+    """
+    def thunk():
+        ctx = gmp.get_context()
+        with gmp.context(ctx, precision=ctx.precision + _GUARD_BITS, round=gmp.RoundToNearest):
+            t = inner()
+        return outer(t)
+    return thunk
+
+
 # From `titanfp` package
-# TODO: some of these are unsafe
 _constant_exprs: dict[_Constant, Callable[[], gmp.mpfr]] = {
     _Constant.E : lambda : gmp.exp(1),
-    _Constant.LOG2E : lambda: gmp.log2(gmp.exp(1)), # TODO: may be inaccurate
-    _Constant.LOG10E : lambda: gmp.log10(gmp.exp(1)), # TODO: may be inaccurate
+    _Constant.LOG2E : _composed(lambda: gmp.exp(1), gmp.log2),
+    _Constant.LOG10E : _composed(lambda: gmp.exp(1), gmp.log10),
     _Constant.LN2 : gmp.const_log2,
     _Constant.LN10 : lambda: gmp.log(10),
     _Constant.PI : gmp.const_pi,
-    _Constant.PI_2 : lambda: gmp.const_pi() / 2, # division by 2 is exact
-    _Constant.PI_4 : lambda: gmp.const_pi() / 4, # division by 4 is exact
-    _Constant.M_1_PI : lambda: 1 / gmp.const_pi(), # TODO: may be inaccurate
-    _Constant.M_2_PI : lambda: 2 / gmp.const_pi(), # TODO: may be inaccurate
-    _Constant.M_2_SQRTPI : lambda: 2 / gmp.sqrt(gmp.const_pi()), # TODO: may be inaccurate
+    _Constant.PI_2 : _composed(gmp.const_pi, lambda t: t / 2),
+    _Constant.PI_4 : _composed(gmp.const_pi, lambda t: t / 4),
+    _Constant.M_1_PI : _composed(gmp.const_pi, lambda t: 1 / t),
+    _Constant.M_2_PI : _composed(gmp.const_pi, lambda t: 2 / t),
+    _Constant.M_2_SQRTPI : _composed(lambda: gmp.sqrt(gmp.const_pi()), lambda t: 2 / t),
     _Constant.SQRT2: lambda: gmp.sqrt(2),
     _Constant.SQRT1_2: lambda: gmp.sqrt(gmp.div(gmp.mpfr(1), gmp.mpfr(2))),
 }
